@@ -321,7 +321,7 @@ public:
         try {
           std::string key = c.run(h);
           r.key           = hash_str(key);
-          r.status        = 0;
+          r.status        = key.empty() ? 2 : 0; // "" = op not enabled here
         } catch (const Fail& f) {
           r.status = 1;
           add_fail((uint32_t)n, op, 0, f);
